@@ -127,7 +127,8 @@ export function renderType(t) {
     case "index":
       return `${wrap(t.obj, "postfix")}[${renderType(t.idx)}]`;
     case "mapped":
-      return `{ ${t.ro ? "readonly " : ""}[${t.param} in ${renderType(t.constraint)}]${t.opt ? "?" : ""}: ${renderType(t.val)} }`;
+      // `plus`: the explicit spellings +readonly / +? of the same modifiers
+      return `{ ${t.ro ? (t.plus ? "+readonly " : "readonly ") : ""}[${t.param} in ${renderType(t.constraint)}]${t.opt ? (t.plus ? "+?" : "?") : ""}: ${renderType(t.val)} }`;
     case "cond":
       return `${wrap(t.check, "postfix")} extends ${wrap(t.ext, "postfix")} ? ${renderType(t.a)} : ${renderType(t.b)}`;
     case "util":
